@@ -67,6 +67,19 @@ Solve(A, B) == LET n == Len(A)  m == NCols(B)
                IN [i \in 1..n |-> [j \in 1..m |-> res[i][n + j]]]
 MatInverse(A) == Solve(A, Identity(Len(A)))
 IsSingular(A) == Det(A) = "0"
+\* rank by exact row reduction
+RECURSIVE RankFrom(_, _, _)
+RankFrom(M, col, rank) ==
+  IF col > NCols(M) \/ rank = Len(M) THEN rank
+  ELSE LET cand == {r \in (rank + 1)..Len(M) : M[r][col] # "0"} IN
+       IF cand = {} THEN RankFrom(M, col + 1, rank)
+       ELSE LET piv == CHOOSE r \in cand : TRUE
+                k == rank + 1
+                sw == [i \in DOMAIN M |-> IF i = k THEN M[piv] ELSE IF i = piv THEN M[k] ELSE M[i]]
+                nr == RScaleSeq(RDiv("1", sw[k][col]), sw[k])
+                red == [i \in DOMAIN sw |-> IF i <= k THEN (IF i = k THEN nr ELSE sw[i]) ELSE RAddSeq(sw[i], RScaleSeq(RNeg(sw[i][col]), nr))]
+            IN RankFrom(red, col + 1, k)
+Rank(A) == IF Len(A) = 0 THEN 0 ELSE RankFrom(A, 1, 0)
 \* quadratic form v^T A w
 Quad(v, A, w) == RDot(v, MatVec(A, w))
 =============================================================================
